@@ -14,7 +14,7 @@ func init() {
 		Explanation: "Decides the refusal clauses of abbreviated-ID resolution, not agreement with git rev-parse on every expression: (ambiguous-abbreviation-refused) in Repository.ResolveRevision the loop over the candidates of an abbreviated object ID " +
 			"contains a rejecting return guarded by an inequality of the hashes of two commits (the commit already chosen and the one a further candidate names), so an abbreviation naming several commits is refused rather than resolved to the first; " +
 			"(minimum-abbreviation) resolveHashPrefix yields no candidate for fewer than four hex digits (git's MINIMUM_ABBREV); (name-lookup-order) git's order full ID, reference, abbreviated ID: with the name not a full ID and a reference of that name found, no path reaches the append of the abbreviation's candidates without the reference's hash appended before (found and fixed: a branch called `311188e` lost to the commit 311188e…), with a full ID the ID comes first, " +
-			"and an unresolvable name ends in ErrReferenceNotFound; (regex-search-youngest-first) `^{/regex}` searches the history with the committer-time iterator, so the youngest matching commit wins as in git (found and fixed: preorder took the first match along the first-parent chain); (bang-special-only-at-regex-start) every case of the parser's `^{/…}` scanner that looks at the exclamation mark also requires the regex read so far to be empty, so `!!` and `!-` mean something only right after the slash; (last-digit-checked) resolveHashPrefix returns the candidates found for the whole bytes of a prefix unfiltered only on paths where the prefix is known to have an even number of digits, so the last digit of an odd-length abbreviation is always compared; the revision parser package keeps no package-level state. Not decided: ~, ^, ^{/regex} navigation, reflog syntax, disambiguation by object type beyond 'names a commit'.",
+			"and an unresolvable name ends in ErrReferenceNotFound; (regex-search-youngest-first) `^{/regex}` searches the history with the committer-time iterator, so the youngest matching commit wins as in git (found and fixed: preorder took the first match along the first-parent chain); (bang-special-only-at-regex-start) every case of the parser's `^{/…}` scanner that looks at the exclamation mark also requires the regex read so far to be empty, so `!!` and `!-` mean something only right after the slash, and the case that recognises a type word (`^{commit}` …) is tied to the start of the brace content (found and fixed, 5b0b3e6: `^{/fix commit}` was parsed as `^{commit}`); (every-component-handled) the type switch over the parsed components has a default clause that returns an error and the type-peel case refuses trees and blobs (found and fixed, 1735fb7: `HEAD@{1}`, `HEAD:path`, `master@{upstream}`, `HEAD^{tree}` were skipped and resolved to HEAD); (last-digit-checked) resolveHashPrefix returns the candidates found for the whole bytes of a prefix unfiltered only on paths where the prefix is known to have an even number of digits, so the last digit of an odd-length abbreviation is always compared; the revision parser package keeps no package-level state. Not decided: ~, ^, ^{/regex} navigation, reflog syntax, disambiguation by object type beyond 'names a commit'.",
 		Assumptions: []string{},
 		Run:         runC47,
 	})
@@ -225,6 +225,50 @@ func runC47(c *Ctx) {
 	})
 	c.Check(usesNF, r3, rr.Name()+":unresolvable", rr.Decl.Pos(), "a name that resolves to nothing ends in ErrReferenceNotFound")
 	c.Floor(r3, 2)
+
+	// no component of the parsed expression is skipped: the type switch over the items has a default clause that returns
+	// an error, and the ^{type} case refuses the types that are not satisfied by a commit. Skipped, `HEAD@{1}`,
+	// `HEAD:path`, `HEAD^{tree}` and `master@{upstream}` all resolved to HEAD itself.
+	const r3c = "every-component-handled"
+	{
+		var sw *ast.TypeSwitchStmt
+		ast.Inspect(rr.Decl.Body, func(n ast.Node) bool {
+			if ts, ok := n.(*ast.TypeSwitchStmt); ok && sw == nil {
+				sw = ts
+			}
+			return sw == nil
+		})
+		if sw == nil {
+			c.Unresolved(r3c, rr.Name()+":item-switch", rr.Decl.Pos(), "no type switch over the parsed items found")
+		} else {
+			defaultRefuses, typeCaseRefuses := false, false
+			for _, st := range sw.Body.List {
+				cc := st.(*ast.CaseClause)
+				refuses := false
+				for _, s := range cc.Body {
+					ast.Inspect(s, func(m ast.Node) bool {
+						if r, ok := m.(*ast.ReturnStmt); ok && returnsNonNilError(info, rr.Decl.Body, r) {
+							refuses = true
+						}
+						return true
+					})
+				}
+				if len(cc.List) == 0 {
+					defaultRefuses = refuses
+					continue
+				}
+				for _, e := range cc.List {
+					if tv := info.Types[e]; tv.Type != nil && strings.HasSuffix(tv.Type.String(), "revision.CaretType") {
+						typeCaseRefuses = refuses
+					}
+				}
+			}
+			c.Check(defaultRefuses, r3c, rr.Name()+":default", sw.Pos(), orStr(ifStr(!defaultRefuses, "a component of the expression that no case handles is skipped: `HEAD@{1}`, `HEAD:LICENSE` and `master@{upstream}` resolve to HEAD itself, an arbitrary commit as far as the expression is concerned (git gives another object or an error)"),
+				"an unhandled component ends in an error"))
+			c.Check(typeCaseRefuses, r3c, rr.Name()+":type-peel", sw.Pos(), orStr(ifStr(!typeCaseRefuses, "`^{tree}` and `^{blob}` are not refused: `HEAD^{tree}` resolves to the commit, git rev-parse 'HEAD^{tree}^{commit}' fails"),
+				"a type peel to something that is not a commit is refused"))
+		}
+	}
 
 	// `<rev>^{/regex}` is the youngest matching commit reachable from <rev> (git pops candidates by commit date).
 	const r3b = "regex-search-youngest-first"
